@@ -32,12 +32,31 @@ variable {K : Type} [Field K] [LinearOrder K] [IsStrictOrderedRing K]
 
 /-- `spencer_and_murty.reflect` is the model's mirror formula -/
 theorem gen_reflect (S r : V3 K) : Generated.C19.reflect S r = Model.C19.reflect S r := by
-  simp only [Generated.C19.reflect, Model.C19.reflect]
+  first
+    | rfl
+    | (simp only [Generated.C19.reflect, Model.C19.reflect]; done)
+    | (simp only [Generated.C19.reflect, Model.C19.reflect, V3.sub, V3.smul, V3.dot]
+       refine V3.ext' ?_ ?_ ?_ <;> ring)
 
-/-- `spencer_and_murty.refract` is the model's Snell formula for a normal of any length -/
-theorem gen_refract (sqrt : K → K) (n n' : K) (S r : V3 K) :
-    Generated.C19.refract sqrt n n' S r = Model.C19.refract sqrt n n' S r := by
-  simp only [Generated.C19.refract, Model.C19.refract]
+/-- the laws through which `np.sqrt` and `np.copysign` enter the refraction theorems (instantiated with the real functions at
+the end of the file) -/
+structure RootLaws (sqrt : K → K) (csgn : K → K → K) : Prop where
+  sq : ∀ x, 0 ≤ x → sqrt x * sqrt x = x
+  nonneg : ∀ x, 0 ≤ sqrt x
+  cs : ∀ a b, csgn a b = if b < 0 then -|a| else |a|
+
+/-- `<` as the Boolean test the executable model takes -/
+def ltK (a b : K) : Bool := decide (a < b)
+
+/-- `spencer_and_murty.refract` is the model's Snell formula for a normal of any length, the root carrying the sign of `r·S` -/
+theorem gen_refract (sqrt : K → K) (csgn : K → K → K) (h : RootLaws sqrt csgn) (n n' : K) (S r : V3 K) :
+    Generated.C19.refract sqrt csgn ltK n n' S r = Model.C19.refract sqrt ltK n n' S r := by
+  first
+    | rfl
+    | (simp only [Generated.C19.refract, Model.C19.refract, h.cs, abs_of_nonneg (h.nonneg _), ltK, decide_eq_true_eq]; done)
+    | (simp only [Generated.C19.refract, Model.C19.refract, h.cs, abs_of_nonneg (h.nonneg _), ltK, decide_eq_true_eq,
+         V3.add, V3.sub, V3.smul, V3.dot]
+       ring_nf)
 
 /-- `raytrace` hands `reflect` and `refract` exactly the vector returned by `intersect`, i.e. the un-normalised
 surface gradient `(−F_x, −F_y, 1)` (so both formulas must cope with a normal of any length) -/
@@ -83,9 +102,13 @@ theorem gen_conic (sqrt : K → K) (c k rho rhosq phi : K) :
     Generated.C19.conicSagDer sqrt c k rho = conicSagDer c rho (sqrt (phiSq c k (rho * rho))) ∧
     Generated.C19.phiSpheroid sqrt c k rhosq = sqrt (phiSq c k rhosq) ∧
     Generated.C19.conicSagPhi c k rhosq phi = conicSag c rhosq phi := by
-  refine ⟨?_, ?_, ?_, ?_⟩ <;>
-    simp only [Generated.C19.conicSag, Generated.C19.conicSagDer, Generated.C19.phiSpheroid,
-      Generated.C19.conicSagPhi, conicSag, conicSagDer, phiSq]
+  refine ⟨?_, ?_, ?_, ?_⟩ <;> first
+    | rfl
+    | (simp only [Generated.C19.conicSag, Generated.C19.conicSagDer, Generated.C19.phiSpheroid,
+        Generated.C19.conicSagPhi, conicSag, conicSagDer, phiSq]; done)
+    | (simp only [Generated.C19.conicSag, Generated.C19.conicSagDer, Generated.C19.phiSpheroid,
+        Generated.C19.conicSagPhi, conicSag, conicSagDer, phiSq]
+       ring_nf)
 
 /-- the closure `Surface.off_axis_conic(...).FFp` is the parent conic evaluated at shifted coordinates -/
 theorem gen_offaxis_ffp (sqrt : K → K) (c k dx dy x y : K) :
@@ -146,37 +169,72 @@ theorem reflect_traced (sqrt : K → K) (S g : V3 K) (h : g ≠ ⟨0, 0, 0⟩) :
 
 /-! ## refraction -/
 
-/-- `|S'| = 1` for every unit incident direction and every NON-ZERO normal vector of any length (the tracer
-hands over the un-normalised surface gradient), below the critical angle (`radicand ≥ 0`) -/
-theorem refract_unit (sqrt : K → K) (hs : ∀ x, 0 ≤ x → sqrt x * sqrt x = x) (n n' : K) (S r : V3 K)
+/-- everything about one refraction, for every unit incident direction and every NON-ZERO normal vector of any length (the
+tracer hands over the un-normalised surface gradient), below the critical angle (`radicand ≥ 0`), whichever way the surface is
+crossed: `|S'| = 1`; `n'(S' × r) = n(S × r)` (plane of incidence and `n' sin i' = n sin i`); and `S'·r = ±√radicand` with the
+sign of `S·r` -/
+theorem refract_facts (sqrt : K → K) (csgn : K → K → K) (h : RootLaws sqrt csgn) (n n' : K) (S r : V3 K)
     (hr : r ≠ ⟨0, 0, 0⟩) (hS : V3.dot S S = 1) (hn' : n' ≠ 0) (hrad : 0 ≤ radicand n n' S r) :
-    V3.dot (gRefract sqrt n n' S r) (gRefract sqrt n n' S r) = 1 := by
-  rw [gen_refract]
-  exact (refract_core n n' _ S r hr hS hn' (hs _ hrad)).1
+    let S' := gRefract sqrt csgn ltK n n' S r
+    V3.dot S' S' = 1 ∧ V3.smul n' (V3.cross S' r) = V3.smul n (V3.cross S r) ∧
+    V3.dot S' r = if V3.dot r S < 0 then -sqrt (radicand n n' S r) else sqrt (radicand n n' S r) := by
+  intro S'
+  have e : S' = Model.C19.refract sqrt ltK n n' S r := gen_refract sqrt csgn h n n' S r
+  rw [e]
+  have hσ := h.sq _ hrad
+  by_cases hc : V3.dot r S < 0
+  · have hσ' : (-sqrt (radicand n n' S r)) * (-sqrt (radicand n n' S r)) = radicand n n' S r := by rw [neg_mul_neg]; exact hσ
+    have := refract_core n n' _ S r hr hS hn' hσ'
+    simp only [Model.C19.refract, ltK, decide_eq_true_eq, hc, if_true]
+    exact this
+  · have := refract_core n n' _ S r hr hS hn' hσ
+    simp only [Model.C19.refract, ltK, decide_eq_true_eq, hc, if_false]
+    exact this
+
+/-- `|S'| = 1` -/
+theorem refract_unit (sqrt : K → K) (csgn : K → K → K) (h : RootLaws sqrt csgn) (n n' : K) (S r : V3 K)
+    (hr : r ≠ ⟨0, 0, 0⟩) (hS : V3.dot S S = 1) (hn' : n' ≠ 0) (hrad : 0 ≤ radicand n n' S r) :
+    V3.dot (gRefract sqrt csgn ltK n n' S r) (gRefract sqrt csgn ltK n n' S r) = 1 :=
+  (refract_facts sqrt csgn h n n' S r hr hS hn' hrad).1
 
 /-- Snell's law in vector form, `n' (S' × r) = n (S × r)`: the refracted ray lies in the plane of incidence and
-`n' sin i' = n sin i`; and `S'·r = √radicand` (`≥ 0` for a non-negative square root: the refracted ray leaves on the
-side the normal vector points to) -/
-theorem refract_snell (sqrt : K → K) (hs : ∀ x, 0 ≤ x → sqrt x * sqrt x = x) (n n' : K) (S r : V3 K)
+`n' sin i' = n sin i` -/
+theorem refract_snell (sqrt : K → K) (csgn : K → K → K) (h : RootLaws sqrt csgn) (n n' : K) (S r : V3 K)
     (hr : r ≠ ⟨0, 0, 0⟩) (hS : V3.dot S S = 1) (hn' : n' ≠ 0) (hrad : 0 ≤ radicand n n' S r) :
-    V3.smul n' (V3.cross (gRefract sqrt n n' S r) r) = V3.smul n (V3.cross S r) ∧
-    V3.dot (gRefract sqrt n n' S r) r = sqrt (radicand n n' S r) := by
-  rw [gen_refract]
-  exact (refract_core n n' _ S r hr hS hn' (hs _ hrad)).2
+    V3.smul n' (V3.cross (gRefract sqrt csgn ltK n n' S r) r) = V3.smul n (V3.cross S r) :=
+  (refract_facts sqrt csgn h n n' S r hr hS hn' hrad).2.1
+
+/-- THE REFRACTED RAY CONTINUES THROUGH THE SURFACE: `S'·r` has the sign of `S·r` (the ray leaves on the side it was heading
+for), also for a ray that travels against the normal vector (towards `−z` in the surface frame, e.g. after a mirror) -/
+theorem refract_continues (sqrt : K → K) (csgn : K → K → K) (h : RootLaws sqrt csgn) (n n' : K) (S r : V3 K)
+    (hr : r ≠ ⟨0, 0, 0⟩) (hS : V3.dot S S = 1) (hn' : n' ≠ 0) (hrad : 0 ≤ radicand n n' S r) :
+    (0 ≤ V3.dot S r → 0 ≤ V3.dot (gRefract sqrt csgn ltK n n' S r) r) ∧
+    (V3.dot S r < 0 → V3.dot (gRefract sqrt csgn ltK n n' S r) r ≤ 0) := by
+  have h3 := (refract_facts sqrt csgn h n n' S r hr hS hn' hrad).2.2
+  have hc : V3.dot r S = V3.dot S r := by simp only [V3.dot]; ring
+  have h0 := h.nonneg (radicand n n' S r)
+  rw [h3, hc]
+  constructor
+  · intro hp; rw [if_neg (not_lt.mpr hp)]; exact h0
+  · intro hn; rw [if_pos hn]; linarith
 
 /-- the scalar law of sines: with `cos i = (S·r)/|r|`, `cos i' = (S'·r)/|r|`:
 `n'² (1 − cos² i') = n² (1 − cos² i)` -/
-theorem refract_snell_sines (sqrt : K → K) (hs : ∀ x, 0 ≤ x → sqrt x * sqrt x = x) (n n' : K) (S r : V3 K)
+theorem refract_snell_sines (sqrt : K → K) (csgn : K → K → K) (h : RootLaws sqrt csgn) (n n' : K) (S r : V3 K)
     (hr : r ≠ ⟨0, 0, 0⟩) (hS : V3.dot S S = 1) (hn' : n' ≠ 0) (hrad : 0 ≤ radicand n n' S r) :
-    let S' := gRefract sqrt n n' S r
+    let S' := gRefract sqrt csgn ltK n n' S r
     n' * n' * (1 - V3.dot S' r * V3.dot S' r / V3.dot r r) = n * n * (1 - V3.dot S r * V3.dot S r / V3.dot r r) := by
   intro S'
-  have h1 := (refract_snell sqrt hs n n' S r hr hS hn' hrad).2
+  have h1 := (refract_facts sqrt csgn h n n' S r hr hS hn' hrad).2.2
   have hp : V3.dot r r ≠ 0 := ne_of_gt (normSq_pos hr)
-  have hσ := hs _ hrad
+  have hσ := h.sq _ hrad
   have hc : V3.dot r S = V3.dot S r := by simp only [V3.dot]; ring
-  show n' * n' * (1 - V3.dot (gRefract sqrt n n' S r) r * V3.dot (gRefract sqrt n n' S r) r / V3.dot r r) = _
-  rw [h1, hσ]
+  have hsq : V3.dot S' r * V3.dot S' r = radicand n n' S r := by
+    show V3.dot (gRefract sqrt csgn ltK n n' S r) r * V3.dot (gRefract sqrt csgn ltK n n' S r) r = _
+    rw [h1]; split_ifs
+    · rw [neg_mul_neg]; exact hσ
+    · exact hσ
+  rw [hsq]
   unfold radicand
   rw [hc]
   field_simp
@@ -184,19 +242,20 @@ theorem refract_snell_sines (sqrt : K → K) (hs : ∀ x, 0 ≤ x → sqrt x * s
 
 /-- as traced: with the vector `raytrace` actually hands to `refract` (the surface gradient `g ≠ 0`), the
 outgoing direction has unit length and obeys Snell's law about the true normal direction `g` -/
-theorem refract_traced (sqrt : K → K) (hs : ∀ x, 0 ≤ x → sqrt x * sqrt x = x) (n n' : K) (S g : V3 K)
+theorem refract_traced (sqrt : K → K) (csgn : K → K → K) (h : RootLaws sqrt csgn) (n n' : K) (S g : V3 K)
     (hg : g ≠ ⟨0, 0, 0⟩) (hS : V3.dot S S = 1) (hn' : n' ≠ 0) (hrad : 0 ≤ radicand n n' S g) :
-    let S' := gRefract sqrt n n' S (refractCallNormal sqrt g)
+    let S' := gRefract sqrt csgn ltK n n' S (refractCallNormal sqrt g)
     V3.dot S' S' = 1 ∧ V3.smul n' (V3.cross S' g) = V3.smul n (V3.cross S g) := by
   have e : refractCallNormal sqrt g = g := (gen_call_normals sqrt g).1
   simp only [e]
-  exact ⟨refract_unit sqrt hs n n' S g hg hS hn' hrad, (refract_snell sqrt hs n n' S g hg hS hn' hrad).1⟩
+  exact ⟨refract_unit sqrt csgn h n n' S g hg hS hn' hrad, refract_snell sqrt csgn h n n' S g hg hS hn' hrad⟩
 
-/-- with a UNIT normal the code's formula is Spencer & Murty's printed one (`sqrt 1`-free: `ρ = 1`) -/
-theorem refract_unit_normal (sqrt : K → K) (n n' : K) (S r : V3 K) (hr : V3.dot r r = 1) :
-    gRefract sqrt n n' S r = refractUnit sqrt n n' S r := by
-  rw [gen_refract]
-  simp only [Model.C19.refract, refractUnit, hr, div_one]
+/-- with a UNIT normal pointing along the ray (`r·S ≥ 0`) the code's formula is Spencer & Murty's printed one -/
+theorem refract_unit_normal (sqrt : K → K) (csgn : K → K → K) (h : RootLaws sqrt csgn) (n n' : K) (S r : V3 K)
+    (hr : V3.dot r r = 1) (hc : 0 ≤ V3.dot r S) :
+    gRefract sqrt csgn ltK n n' S r = refractUnit sqrt n n' S r := by
+  rw [gen_refract sqrt csgn h]
+  simp only [Model.C19.refract, refractUnit, hr, div_one, ltK, decide_eq_true_eq, not_lt.mpr hc, if_false]
 
 /-- going into the denser medium there is never total internal reflection (hypothesis `hrad` is automatic) -/
 theorem refract_no_tir (n n' : K) (S r : V3 K) (hS : V3.dot S S = 1) (hn : 0 < n) (hnn : n ≤ n') :
@@ -408,8 +467,9 @@ theorem cyl_normal_on_axis (fp cost sint : K) :
   exact e
 
 /-- the gradient the CODE computes for a conic (radial derivative `cρ/φ`, azimuthal derivative `0`, polar route)
-is the Cartesian gradient `(c x/φ, c y/φ)` for EVERY point, the vertex included: a ray along the axis of
-symmetry is traced like any other ray -/
+is the Cartesian gradient `(c x/φ, c y/φ)` at every point of the surface, the vertex included (a ray along the axis of
+symmetry is traced like any other ray).  At the rim `φ = 0` both sides are `x/0`, equal only by the field convention `x/0 = 0`;
+the statement carries content for `φ ≠ 0`, which is the surface's domain -/
 theorem conic_code_gradient (sqrt : K → K) (c k r cost sint : K) (hcs : cost * cost + sint * sint = 1) :
     let dr := Generated.C19.conicSagDer sqrt c k r
     let g := sagGrad sqrt (.conic c k) (r * cost) (r * sint)
@@ -514,16 +574,13 @@ theorem vertex_plane (P0 S : V3 K) (hm : S.z ≠ 0) : (Generated.C19.toVertexPla
   ring
 
 /-- the ONLY statement made about the solver: if the Newton iteration stops (`|s_{j+1} − s_j| < ε`) then the
-residual `F(P_j) = Z_j − sag(X_j, Y_j)` at the point it returns satisfies `|F| < ε · |F'|`, `F' = S·r`
-(convergence itself is NOT proved) -/
+residual `F = Z_j − sag(X_j, Y_j)` at the point `P_j = P1 + s_j S` it returns (the point BEFORE the last update) satisfies
+`|F| < ε · |F'|`, `F' = S·r`, in exact arithmetic.  Convergence itself, the per-ray masking and rounding are NOT proved. -/
 theorem newton_postcondition (P1 S r : V3 K) (sj sag eps : K)
     (hFp : Generated.C19.newtonFp abs P1 S sj sag r ≠ 0)
     (hstop : Generated.C19.newtonDelta abs P1 S sj sag r < eps) :
-    Generated.C19.newtonF abs P1 S sj sag r = (Generated.C19.newtonPoint abs P1 S sj sag r).z - sag ∧
-    |Generated.C19.newtonF abs P1 S sj sag r| < eps * |Generated.C19.newtonFp abs P1 S sj sag r| := by
-  simp only [Generated.C19.newtonF, Generated.C19.newtonFp, Generated.C19.newtonDelta,
-    Generated.C19.newtonPoint] at *
-  refine ⟨trivial, ?_⟩
+    |(Generated.C19.newtonPoint abs P1 S sj sag r).z - sag| < eps * |V3.dot S r| := by
+  simp only [Generated.C19.newtonFp, Generated.C19.newtonDelta, Generated.C19.newtonPoint] at *
   have hpos : 0 < |V3.dot S r| := abs_pos.mpr hFp
   rw [sub_sub_cancel_left, abs_neg, abs_div, div_lt_iff₀ hpos] at hstop
   exact hstop
@@ -532,6 +589,10 @@ theorem newton_postcondition (P1 S r : V3 K) (sj sag eps : K)
 
 example : (∀ x : ℝ, 0 ≤ x → Real.sqrt x * Real.sqrt x = x) ∧ (∀ x : ℝ, 0 ≤ Real.sqrt x) :=
   ⟨fun _ h => Real.mul_self_sqrt h, Real.sqrt_nonneg⟩
+
+/-- the real square root and `copysign` (as a function of reals) satisfy `RootLaws` -/
+example : RootLaws Real.sqrt (fun a b : ℝ => if b < 0 then -|a| else |a|) :=
+  ⟨fun _ h => Real.mul_self_sqrt h, Real.sqrt_nonneg, fun _ _ => rfl⟩
 
 /-- a skew unit ray on an un-normalised normal, air → glass: all hypotheses of `refract_traced` hold -/
 example : let S : V3 ℚ := ⟨3 / 5, 0, 4 / 5⟩; let g : V3 ℚ := ⟨-1 / 2, 1 / 4, 1⟩
